@@ -156,11 +156,15 @@ type c18Signer struct {
 	mu    sync.Mutex
 	byLoc map[keychain.KeyLocator]*c18Acct
 	reqs  []c18SignReq
+	pre   func() // called before signing (schedule control)
 }
 
 func (s *c18Signer) SignMessage(_ context.Context, msg []byte,
 	loc keychain.KeyLocator, _ ...lndclient.SignMessageOption) ([]byte, error) {
 
+	if s.pre != nil {
+		s.pre()
+	}
 	s.mu.Lock()
 	defer s.mu.Unlock()
 	s.reqs = append(s.reqs, c18SignReq{msg: append([]byte(nil), msg...), loc: loc})
@@ -239,7 +243,7 @@ func c18Handshake(r *Run, acct *c18Acct, challengeField []byte, ver uint32) {
 	}
 	ctx, cancel := context.WithTimeout(context.Background(), 10*time.Second)
 	defer cancel()
-	commitHash, err := auctioneer.VerifAuthenticate(
+	commitHash, err := auctioneer.VerifC18Authenticate(
 		ctx, acct.desc, sendMsg, signer, msgChan, order.BatchVersion(ver),
 		make(chan error), make(chan struct{}),
 	)
@@ -287,7 +291,7 @@ func c18Handshake(r *Run, acct *c18Acct, challengeField []byte, ver uint32) {
 // `fails` times and compares the logged backoffs with the model.
 func c18Backoff(r *Run, initB, minB, maxB time.Duration, retries, fails int) {
 	c18Log.drain()
-	err, opened, at := auctioneer.VerifConnect(initB, minB, maxB, retries, fails)
+	err, opened, at := auctioneer.VerifC18Connect(initB, minB, maxB, retries, fails)
 	backoffs := c18Backoffs(c18Log.drain())
 	// waits the code must have requested: the initial one and every
 	// updated backoff that was followed by another attempt
@@ -411,7 +415,7 @@ func c18Switch(r *Run, ops []string) {
 	}
 	waitLocked := func(want bool) bool {
 		deadline := time.Now().Add(5 * time.Second)
-		for sw.VerifLocked() != want {
+		for sw.VerifC18Locked() != want {
 			if time.Now().After(deadline) {
 				return false
 			}
